@@ -237,21 +237,13 @@ fn main() {
     ctx.rule("case = (mode configuration, grammar map); per case and setting a BFS over all histories of {next, nth(1), nth(2), nth(N), last} x 7 score states (zero, SS of the prefix, all misses, over-counts, half, worst-only, geki/katu) on a fresh gradual performance calculator; every step compared with Performance::new(&map).difficulty(d)[.try_mode].passed_objects(pos).state(s).calculate(); key = (position, calls after exhaustion <= 1); non-trivial = map yields at least one value");
     ctx.assume("score states come from the 7-entry menu evaluated on the reached prefix; continuous settings are those of the menu");
 
-    // periodic longer maps first (cheap): every motif of <= 2 objects repeated 5 times
-    for cfg in MODE_CFGS.iter() {
-        let alpha = if cfg.src == 3 {
-            Alphabet::product(&[Kind::Circle, Kind::Hold(100), Kind::Hold(300)], &[110, 250], &[PosK::Same], &[0], &[0, 1, 2])
-        } else {
-            Alphabet::product(&[Kind::Circle, Kind::Slider2, Kind::Spinner(600)], &[110, 250], &[PosK::Far], &[0, 8], &[0])
-        };
-        let mlen = ctx.pick(2u32, 3);
-        let total = alpha.count_upto(mlen) - 1;
-        let name = format!("motif/{}to{}/len<={mlen}-x5/|A|={}", cfg.src, cfg.dst, alpha.len());
+    // periodic longer maps first (cheap): every motif of <= 2 objects (stacked and far, with hit sounds) repeated 5 times
+    for mu in vh::uni::motif_universes(&MODE_CFGS, ctx.pick(2u32, 3), 5, false).into_iter().chain(vh::uni::rhythm_universes(&MODE_CFGS, 3, 3)) {
         let setts = [Setting::nm(), Setting { lazer: Some(false), ..Setting::bits(settings::HD | settings::HR | settings::DT) }];
-        ctx.universe(&name, total, |idx, l| {
-            let spec = MapSpec { repeat: 5, diff: gen::DiffPreset::D4, ..MapSpec::new(cfg.src, alpha.seq(idx + 1, mlen)) };
+        ctx.universe(&mu.name, mu.total, |idx, l| {
+            let spec = mu.spec(idx);
             let map = spec.decode();
-            check_case(l, *cfg, &map, &setts, &|| format!("cfg={cfg:?}\nspec={}\n--- .osu ---\n{}", spec.describe(), spec.text()));
+            check_case(l, mu.cfg, &map, &setts, &|| format!("cfg={:?}\nspec={}\n--- .osu ---\n{}", mu.cfg, spec.describe(), spec.text()));
         });
     }
     let n_max: u32 = ctx.pick(3, 4);
